@@ -5,6 +5,11 @@ ROOT = os.path.dirname(os.path.dirname(os.path.abspath(__file__)))
 ALL = ["C%02d" % i for i in range(1, 21)]
 
 CHECKS = {
+ "C17": dict(
+   technique="TLA+ abstract map/list spec (RtColl); TLC-enumerated transition histories and simulated long histories replayed into the real C runtime under ASan/UBSan; the logged replies and full projected state after every call validated by TLC (RtCollTrace)",
+   category="model_checking",
+   text="Every transition of the small abstract state graph and simulated 200-call histories crossing the rehash/capacity thresholds are replayed for all key flavours and element sizes; TLC checks every reply, size, per-key lookup and iteration (each entry exactly once) against the abstract state after every single call; sanitizer reports decide the memory-safety clause.",
+   note="Memory safety is observed by AddressSanitizer/UBSan/LeakSanitizer, not specified; the driver's key concretisation is trusted."),
  "C14": dict(
    technique="TLA+ ModuleLoader spec (global literal counter, stable-sorted diagnostic bag, cycle DFS path, Kahn order) simulated by TLC over projects x 3 schedules; every schedule forced through the hooked compiler's gates, every run trace-validated by TLC; runs the spec maps to the same Output must be byte-identical",
    category="model_checking",
